@@ -400,6 +400,8 @@ class MetadorGroup(MetadorNode):
         self._guard_path(name)
         if name[0] == "/" and self.name != "/":
             return name in self["/"]
+        if name == "/":
+            return True  # the root group itself
         segs = name.lstrip("/").split("/")
         has_first_seg = segs[0] in self.keys()
         if len(segs) == 1:
